@@ -7,8 +7,9 @@ spec: Emboss/Spec/Text.lean; helper lemmas: Emboss/Lemmas/Text*.lean.
 -/
 import Emboss.Lemmas.TextIntWrite
 import Emboss.Lemmas.TextWrite
+import Emboss.Lemmas.TextStruct
 namespace Emboss.Text
-open Spec
+open Spec Emboss.Deps
 
 /-! ## Integer text encoding and decoding are mutually inverse -/
 
@@ -127,5 +128,94 @@ theorem C06_single_line_comments_counterexample :
   constructor
   · intro h; exact absurd (h.comments_need_multiline rfl) (by decide)
   · decide +kernel
+
+/-! ## Structure round trip, emission order, Skip / Emit -/
+
+/-- FULL STATEMENT (false, see `C06_struct_roundtrip_counterexample`): for every field list
+and every buffer, `update zeroBuf (writeText fs b)` succeeds and every emitted field reads
+back equal.  Proved here under `DepOk [] fs`: the fields are in dependency order and no
+skipped (or otherwise unwritten) field determines the location of an emitted one. -/
+theorem C06_struct_roundtrip_partial (fs : List FieldSem) (b : Buf) (h : DepOk [] fs) :
+    ∃ b1, update zeroBuf (writeText fs b) = some b1 ∧
+      ∀ f ∈ fs, f.emitted = true → ∀ l, f.loc b = some l →
+        f.loc b1 = some l ∧ l.map b1 = l.map b := by
+  obtain ⟨b1, h1, h2⟩ := update_roundtrip fs [] b zeroBuf h (by intro g hg; cases hg)
+  refine ⟨b1, h1, ?_⟩
+  intro f hf hem l hl
+  have h2' : AgreeOn fs b b1 := by simpa using h2
+  constructor
+  · rw [depOk_loc fs [] h f hf hem b b1 (by simpa using h2), hl]
+  · exact List.map_congr_left (fun a ha => h2' f hf hem l hl a ha)
+
+/-! Non-vacuity: `n` (8 bits, emitted) sizes `data` (present iff n ≠ 0): the hypothesis holds. -/
+def exN (emitted : Bool) : FieldSem := ⟨fun _ => some [0, 1, 2, 3, 4, 5, 6, 7], emitted⟩
+def exData : FieldSem :=
+  ⟨fun b => if (b 0 || b 1 || b 2 || b 3 || b 4 || b 5 || b 6 || b 7) then some [8, 9, 10, 11, 12, 13, 14, 15] else none, true⟩
+/-- n = 2, data[0] = 7 -/
+def exBuf : Buf := fun a => a == 1 || a == 8 || a == 9 || a == 10
+
+example : DepOk [] [exN true, exData] := by
+  refine ⟨fun _ _ _ _ => rfl, ?_, trivial⟩
+  intro _ b b' hag
+  have h := hag (exN true) (by simp) rfl [0, 1, 2, 3, 4, 5, 6, 7] rfl
+  simp only [exData]
+  rw [h 0 (by simp), h 1 (by simp), h 2 (by simp), h 3 (by simp), h 4 (by simp), h 5 (by simp),
+    h 6 (by simp), h 7 (by simp)]
+
+/-- The excluded case is a real failure (finding `skip-field-determines-layout-of-emitted-field`):
+with `n` marked Skip the text holds only `data`, and updating a zeroed buffer fails because
+`data` does not exist there (`n` reads 0). -/
+theorem C06_struct_roundtrip_counterexample :
+    update zeroBuf (writeText [exN false, exData] exBuf) = none ∧ ¬ DepOk [] [exN false, exData] := by
+  constructor
+  · decide
+  · intro h
+    have := h.2.1 rfl exBuf zeroBuf (by
+      intro g hg hge
+      simp at hg; subst hg; cases hge)
+    simp [exData, exBuf, zeroBuf] at this
+
+/-- Emission order, presence and absence: the write clauses are the fields of
+`fields_in_dependency_order`, in that order, minus those whose `text_output` attribute is
+present and different from `"Emit"`; so `Skip` ⇒ absent, `Emit` or no attribute ⇒ present.
+At run time the names in the text are those clauses whose field exists, read-only ones
+excepted (comments). -/
+theorem C06_emission_order (decl : Nat → FieldDecl) (present : Nat → Bool) (order : List Nat) :
+    (writeClauses decl order).Sublist order ∧
+    (∀ i, i ∈ writeClauses decl order ↔
+      i ∈ order ∧ ((decl i).textOutput = none ∨ (decl i).textOutput = some "Emit")) ∧
+    (∀ i, (decl i).textOutput = some "Skip" → i ∉ writeClauses decl order) ∧
+    (textNames decl present order).Sublist (writeClauses decl order) := by
+  refine ⟨List.filter_sublist, ?_, ?_, List.filter_sublist⟩
+  · intro i
+    simp only [writeClauses, List.mem_filter, FieldDecl.hasWriteClause]
+    constructor
+    · rintro ⟨h1, h2⟩
+      refine ⟨h1, ?_⟩
+      cases hd : (decl i).textOutput with
+      | none => exact Or.inl rfl
+      | some s =>
+        rw [hd] at h2
+        exact Or.inr (by simpa using h2)
+    · rintro ⟨h1, h2 | h2⟩ <;> simp [h1, h2]
+  · intro i hi hmem
+    simp only [writeClauses, List.mem_filter, FieldDecl.hasWriteClause, hi] at hmem
+    exact absurd hmem.2 (by decide)
+
+/-- Fields are emitted after the fields they depend on: with the ordering of C15
+(`C15_order_topological`), every dependency of a field `f` is a runtime parameter or stands
+before `f` in the order, and the text lists names in that order — so a dependency that is
+written at all is written before `f`. -/
+theorem C06_emission_after_dependencies (deps : DepFn) (params order l1 l2 : List Nat) (f : Nat)
+    (decl : Nat → FieldDecl) (present : Nat → Bool)
+    (h : TopoFrom deps params order) (hs : order = l1 ++ f :: l2) :
+    textNames decl present order =
+        textNames decl present l1 ++ (textNames decl present [f] ++ textNames decl present l2) ∧
+      ∀ d ∈ deps f, d ∈ params ∨ d ∈ l1 := by
+  subst hs
+  refine ⟨?_, topoFrom_split deps l1 params f l2 h⟩
+  have hcons : f :: l2 = [f] ++ l2 := rfl
+  simp only [textNames, writeClauses]
+  rw [hcons, List.filter_append, List.filter_append, List.filter_append, List.filter_append]
 
 end Emboss.Text
